@@ -6,14 +6,14 @@ from .parse import split_top, match_close
 
 REPO = os.environ.get("VERIF_REPO", "/repo")
 VERIF = os.path.dirname(os.path.dirname(os.path.dirname(os.path.abspath(__file__))))
-MIRDIR = os.path.join(VERIF, ".build", "mir")
+MIRDIR = os.path.join(VERIF, ".build", "work", os.environ.get("VERIF_PROP", "adhoc"), "mir")
 
 
 def dump_mir(crate, hooks=True, force=True):
     """Regenerate the MIR text of one crate from /repo's working tree (nightly rustc)."""
     out = os.path.join(MIRDIR, crate + ".mir")
     t0 = time.time()
-    r = subprocess.run([os.path.join(VERIF, "tools", "mirdump.sh"), crate] + (["hooks"] if hooks else []),
+    r = subprocess.run([os.path.join(VERIF, "tools", "mirdump.sh"), crate, "hooks" if hooks else "nohooks", MIRDIR],
                        capture_output=True, text=True)
     if r.returncode != 0 or not os.path.exists(out) or os.path.getsize(out) == 0:
         err = open(os.path.join(MIRDIR, crate + ".err")).read()[-3000:] if os.path.exists(os.path.join(MIRDIR, crate + ".err")) else r.stderr
@@ -99,7 +99,7 @@ class Program:
             # scenario programs written in Rust (/verif/mirharness): only their MIR is used
             hp = os.path.join(MIRDIR, "mirharness.mir")
             if redump:
-                r = subprocess.run([os.path.join(VERIF, "tools", "mirdump_path.sh"), os.path.join(VERIF, "mirharness"), "mirharness"], capture_output=True, text=True)
+                r = subprocess.run([os.path.join(VERIF, "tools", "mirdump_path.sh"), os.path.join(VERIF, "mirharness"), "mirharness", MIRDIR], capture_output=True, text=True)
                 if r.returncode != 0:
                     raise RuntimeError("MIR dump of the scenario harness failed: " + open(os.path.join(MIRDIR, "mirharness.err")).read()[-2000:])
             for b in parse.parse_file(hp):
